@@ -3,6 +3,7 @@ import PV.Model.Ops
 import PV.Model.Traverse
 import PV.Driver.GAOps
 import PV.Driver.AlgoOps
+import PV.Driver.SyntaxOps
 /-
   Driver operations: one request S-expression in, one reply S-expression out.
 -/
@@ -182,6 +183,9 @@ def handle (req : Sexp) : Sexp :=
   | some r => r
   | none =>
   match handleAlgo req with
+  | some r => r
+  | none =>
+  match handleSyntax req with
   | some r => r
   | none =>
   match handleTraverse req with
